@@ -425,6 +425,10 @@ func (c *Circuit) allowNewRun(ctx context.Context, now time.Time) bool {
 	if !c.IsOpen() {
 		return true
 	}
+	if c.threadSafeConfig.CircuitBreaker.ForceOpen.Get() {
+		// A forced-open circuit rejects every call, whatever the close logic would admit
+		return false
+	}
 	if c.OpenToClose.Allow(ctx, now) {
 		return true
 	}
